@@ -2462,6 +2462,34 @@ def do_selftest():
         good = accepted == want_accept
         print("  %-75s C11 -> %s %s" % (name, "accepted" if accepted else "rejected at %s" % (tv["progress"][1],), "ok" if good else "UNEXPECTED"))
         ok = ok and good
+    # the platform discipline (Trace_Flush): page protections, flush, execute mode on a recorded macOS run
+    psc = [{"id": 1, "variant": "macos-a64", "off": 4088, "installs": ["jump"], "fake": 0x7f1234567000, "near_fake": False}]
+    pg, _, _ = vlib.run_harness("platsim", psc, "selftest_platsim")
+    pbase = pg[1]
+
+    def pchanged(evs, pred, **kw):
+        out = copy.deepcopy(evs)
+        e = next(x for x in out if pred(x))
+        for k, v in kw.items():
+            if isinstance(v, dict):
+                e[k].update(v)
+            else:
+                e[k] = v
+        return out
+    pcases = [("platform: unmodified", pbase, "C01", True), ("platform: unmodified", pbase, "C17", True),
+              ("platform: mach_vm_protect covers 8 bytes of a 12-byte patch that ends on the next page",
+               pchanged(pbase, lambda e: e["ev"] == "POs" and e["call"] == "mach_vm_protect" and e["x"]["prot"] & 2, len=8), "C01", False),
+              ("platform: the trampoline's instruction-cache request is missing",
+               without(pbase, lambda e: e["ev"] == "PFlush" and e["off"] >= 8192), "C17", False),
+              ("platform: the thread stays in JIT write mode",
+               [dict(e, x={"enabled": 0}) if e["ev"] == "POs" and e["call"] == "jit_write_protect" else e for e in pbase], "C01", False)]
+    for name, evs, prop, want_accept in pcases:
+        cfgp = tlc.make_cfg("Trace_Flush", {"Props": '{"%s", "ALL"}' % prop}, "Trace_Flush_selftest_" + prop)
+        tv = tlc.validate_traces("Trace_Flush", cfgp, [(1, evs)], WORK, "trace_selftest_flush", timeout=600)
+        accepted = 1 in tv["accepted"]
+        good = accepted == want_accept
+        print("  %-88s %s -> %s %s" % (name, prop, "accepted" if accepted else "rejected at %s" % (tv["progress"][1],), "ok" if good else "UNEXPECTED"))
+        ok = ok and good
     print("selftest:", "PASS" if ok else "FAIL")
     return 0 if ok else 1
 
